@@ -913,6 +913,40 @@ func c01Scenarios(res *eng.Result, ss *sigSet) {
 			}
 		}
 	}
+	// the name of a grouping is not the name of a node
+	scs = append(scs,
+		sc{"grouping-named-like-a-sibling-leaf", m(`container c { leaf params { type string; } leaf z { type string; } }`), m(`grouping params { leaf z { type string; } } container c { leaf params { type string; } uses params; }`)},
+		sc{"grouping-named-like-a-later-sibling-leaf", m(`container c { leaf z { type string; } leaf params { type string; } }`), m(`grouping params { leaf z { type string; } } container c { uses params; leaf params { type string; } }`)},
+		sc{"grouping-named-like-a-leaf-of-another-case", m(`choice ch { case p { leaf z { type string; } } case q { leaf g { type string; } } }`), m(`grouping g { leaf z { type string; } } choice ch { case p { uses g; } case q { leaf g { type string; } } }`)},
+		sc{"grouping-named-like-its-own-leaf", m(`container c { leaf g { type string; } }`), m(`grouping g { leaf g { type string; } } container c { uses g; }`)},
+		sc{"grouping-named-like-the-container-using-it", m(`container g { leaf z { type string; } }`), m(`grouping g { leaf z { type string; } } container g { uses g; }`)},
+		sc{"two-scoped-groupings-of-one-name", m(`container a { leaf p { type string; } } container b { leaf q { type string; } }`), m(`container a { grouping g { leaf p { type string; } } uses g; } container b { grouping g { leaf q { type string; } } uses g; }`)},
+	)
+	// what is not YANG written out is not YANG through a grouping or an augment either
+	for _, rj := range []sc{
+		{"same-leaf-in-two-cases", m(`choice ch { case p { leaf z { type string; } } case q { leaf z { type string; } } }`), m(`grouping g { leaf z { type string; } } choice ch { case p { uses g; } case q { uses g; } }`)},
+		{"same-leaf-in-two-cases-two-groupings", m(`choice ch { case p { leaf z { type string; } } case q { leaf z { type string; } } }`), m(`grouping g1 { leaf z { type string; } } grouping g2 { leaf z { type string; } } choice ch { case p { uses g1; } case q { uses g2; } }`)},
+		{"same-leaf-in-one-case-only-through-grouping", m(`choice ch { case p { leaf z { type string; } } case q { leaf z { type string; } } }`), m(`grouping g { leaf z { type string; } } choice ch { case p { leaf z { type string; } } case q { uses g; } }`)},
+		{"leaf-beside-choice-and-inside-its-case", m(`container c { leaf z { type string; } choice ch { case p { leaf z { type string; } } } }`), m(`grouping g { leaf z { type string; } } container c { leaf z { type string; } choice ch { case p { uses g; } } }`)},
+		{"leaf-inside-nested-choice-and-outer-case", m(`choice ch { case p { leaf z { type string; } } case q { choice in { case r { leaf z { type string; } } } } }`), m(`grouping g { leaf z { type string; } } choice ch { case p { leaf z { type string; } } case q { choice in { case r { uses g; } } } }`)},
+		{"same-leaf-twice-in-container", m(`container c { leaf z { type string; } leaf z { type string; } }`), m(`grouping g1 { leaf z { type string; } } grouping g2 { leaf z { type string; } } container c { uses g1; uses g2; }`)},
+		{"augment-adds-leaf-of-another-case", m(`choice ch { case p { leaf z { type string; } } case q { leaf z { type string; } } }`), m(`choice ch { case p { leaf z { type string; } } } augment "/ch" { case q { leaf z { type string; } } }`)},
+		{"augment-adds-existing-leaf", m(`container c { leaf z { type string; } leaf z { type string; } }`), m(`container c { leaf z { type string; } } augment "/c" { leaf z { type string; } }`)},
+		{"augment-adds-leaf-into-case-existing-beside-choice", m(`container c { leaf z { type string; } choice ch { case p { leaf z { type string; } } } }`), m(`container c { leaf z { type string; } choice ch { case p { leaf y { type string; } } } } augment "/c/ch/p" { leaf z { type string; } }`)},
+	} {
+		res.Evals++
+		res.Nontriv++
+		if _, err, fr, msg := c01Dump(rj.inline); fr != "" {
+			ss.add("C01/reject/"+rj.name+"/panic:"+fr, msg)
+		} else if err == nil {
+			ss.add("C01/reject/"+rj.name+"/written-out-form-loads", "two nodes of one name in one parent")
+		}
+		if _, err, fr, msg := c01Dump(rj.factored); fr != "" {
+			ss.add("C01/reject/"+rj.name+"/panic:"+fr, msg)
+		} else if err == nil {
+			ss.add("C01/reject/"+rj.name+"/factored-form-loads", "the written-out form is refused (two nodes of one name in one parent), the factored form is taken")
+		}
+	}
 	for _, s := range scs {
 		want, err, fr, msg := c01Dump(s.inline)
 		res.States++
